@@ -489,6 +489,21 @@ def hash (hp : Nat → Nat) (a : Ref) : Nat := hp a.addr
 def get {α : Type} (mem : Nat → α) (a : Ref) : α := mem a.addr
 end Ref
 
+/-! ## unique_ptr (`unique_ptr_impl.hpp`): owns the object at `ptr`, or is null after a move / `release_ownership` -/
+structure UPtr where
+  ptr : Option Nat
+  deriving Repr, DecidableEq
+
+namespace UPtr
+/-- `operator*`, `operator->`, `get_pointer()` -/
+def get {α : Type} (mem : Nat → α) (u : UPtr) : M α :=
+  match u.ptr with | some p => pure (mem p) | none => throw .emptyDeref
+/-- move construction / assignment: (target, what is left of the source) -/
+def move (u : UPtr) : UPtr × UPtr := (⟨u.ptr⟩, ⟨none⟩)
+/-- `release_ownership()`: (the pointer handed out, the wrapper afterwards) -/
+def release (u : UPtr) : Option Nat × UPtr := (u.ptr, ⟨none⟩)
+end UPtr
+
 /-! ## shared_ptr: stored pointer and owner (control block) -/
 structure SPtr where
   ptr : Nat
